@@ -44,7 +44,8 @@ def adapt(run):
         elif k == "end":
             out.append({"ev": "End", "quiescent": bool(ev["quiescent"])})
         if "obs" in ev and k != "end":
-            out.append({"ev": "ObsQ", "qsize": ev["obs"].get("qsize", 0)})
+            if "qsize" in ev["obs"]:                                 # (private state: compared only if readable)
+                out.append({"ev": "ObsQ", "qsize": ev["obs"]["qsize"]})
             out.append({"ev": "ObsRc", "rc": ev["obs"]["rc"]})
     return out
 
